@@ -34,6 +34,13 @@ static void checkPublished(const lg::Pair &p, const pub::L &L) {
   std::vector<unsigned char> bytes = unhex(last.payloadHex);
   for (int k = 0; k < L.n; k++) {
     const pub::F &f = L.f[k];
+    if (f.konst >= 0) {          // the function has no parameter for this field and must write this constant
+      bool okc; u64 gotc = bitsAt(bytes, f.off, f.len, okc);
+      C.count("published_constant_checks");
+      if (!okc || gotc != ((u64)f.konst & maskBits(f.len)))
+        C.fail(fieldKey(p.id, f.name), "bits [%d,%d) hold %llu, the published constant for this function is %lld", f.off, f.off + f.len, gotc, f.konst);
+      continue;
+    }
     if (!f.param) continue;
     int i = -1;
     for (int j = 0; j < p.nf; j++) if (!strcmp(p.f[j].name, f.param)) i = j;
@@ -103,6 +110,12 @@ static void checkPublished(const lg::Pair &p, const pub::L &L) {
 }
 
 static const pub::L *layoutOf(const std::string &id) { for (int i = 0; i < pub::nLayouts; i++) if (id == pub::layouts[i].id) return &pub::layouts[i]; return nullptr; }
+// the published table a public setter (main function, overload or alias wrapper) is held against: its own (parameters
+// differ: one bool per status bit, fixed reference, NAME as a whole), else the table of its PGN; null = PGN not listed
+static const pub::L *layoutFor(const lg::Pair &p) {
+  for (int i = 0; i < pub::nWrapperLayouts; i++) if (!strcmp(pub::wrapperLayouts[i].id, p.setterKey)) return &pub::wrapperLayouts[i];
+  return layoutOf(std::to_string(p.pgn));
+}
 
 static void execPgnList(const std::string &line) {
   C.op("%s", line.c_str()); C.cases++;
@@ -118,6 +131,11 @@ static void execPgnList(const std::string &line) {
   for (size_t i = 0; i + 1 < l.size(); i++) { want.push_back(l[i] & 0xff); want.push_back((l[i] >> 8) & 0xff); want.push_back((l[i] >> 16) & 0xff); }
   if (m.PGN != 126464UL || (size_t)m.DataLen != want.size() || memcmp(m.Data, want.data(), want.size()))
     C.fail("C15:126464:PGN_list", "payload %s, published encoding %s", hex(m.Data, m.DataLen).c_str(), hex(want.data(), want.size()).c_str());
+  if (w[1] == "0") {      // the alias wrapper of the headers must give the same message
+    tN2kMsg m2; SetN2kPGNTransmitList(m2, 255, l.data());
+    if (m2.PGN != m.PGN || m2.DataLen != m.DataLen || memcmp(m2.Data, m.Data, m.DataLen))
+      C.fail("C15:126464:PGN_list", "SetN2kPGNTransmitList gives %s", hex(m2.Data, m2.DataLen).c_str());
+  }
   C.count("pgnlist_checks");
 }
 
@@ -126,7 +144,7 @@ static void exec15(const std::string &line) {
   if (!w.empty() && w[0] == "pgnlist") { execPgnList(line); return; }
   exec(line);
   if (w.size() >= 2 && w[0] == "set") {
-    const lg::Pair *p = pairOf(w[1]); const pub::L *L = layoutOf(w[1]);
+    const lg::Pair *p = pairOf(w[1]); const pub::L *L = p ? layoutFor(*p) : nullptr;
     if (p && L) checkPublished(*p, *L);
     if (p && g_last[p->id].valid) {
       // fields that only exist on one setter path (e.g. the reference-station record of 129029): table named after the path
@@ -157,11 +175,20 @@ int main(int argc, char **argv) {
   if (!C.replay.empty()) { for (auto &l : readLines(C.replay)) exec15(l); C.finish(); return 0; }
   Rng r(C.seed * 0x9E3779B97F4A7C15ULL ^ 0xC15C15ULL);
   int nRandom = C.thorough ? 1500 : 120;
-  for (int li = 0; li < pub::nLayouts; li++) {
-    if (strchr(pub::layouts[li].id, '_')) continue;      // table of one setter path: exercised with its PGN
-    const lg::Pair *pp = pairOf(pub::layouts[li].id);
-    if (!pp) { C.fail(std::string("harness:no-setter:") + pub::layouts[li].id, "no setter glue for a PGN of the published table"); continue; }
-    const lg::Pair &p = *pp;
+  // EVERY public setter of a listed PGN: the main functions, their overloads and the inline alias wrappers of the headers
+  for (int li = 0; li < lg::nPairs; li++) {
+    const lg::Pair &p = lg::pairs[li];
+    const pub::L *PL = layoutFor(p);
+    if (!PL) continue;
+    if (p.isWrapper) C.count("wrapper_setters_exercised");
+    // plain integer parameters: values over the whole PUBLISHED field (cut to the C type), not only what the setter keeps
+    for (int k = 0; k < PL->n; k++) {
+      const pub::F &f = PL->f[k];
+      if (!f.param || f.resNum != 1 || f.resExp != 0) continue;
+      for (int i = 0; i < p.nf; i++)
+        if (!strcmp(p.f[i].name, f.param) && (p.f[i].kind == lg::K_UINT || p.f[i].kind == lg::K_SINT) && p.f[i].sW == 0)
+          g_widthOverride[&p.f[i]] = std::min(f.len, p.f[i].typeBits ? p.f[i].typeBits : f.len);
+    }
     std::vector<Cell> base(p.nf);
     for (int rep = 0; rep < (C.thorough ? 4 : 1); rep++) {
       for (int i = 0; i < p.nf; i++) base[i] = randomCell(p, p.f[i], r, false);
@@ -173,8 +200,18 @@ int main(int argc, char **argv) {
     }
     // integer parameters whose published unit is coarser (heartbeat interval: 10 ms per bit): codes over the whole
     // published range, exact multiples and values just below the next multiple (truncation)
-    for (int k = 0; k < pub::layouts[li].n; k++) {
-      const pub::F &f = pub::layouts[li].f[k];
+    // flags: each one raised alone and each one cleared alone (a flag wired to the wrong bit, or two flags to the same
+    // bit, shows only when its neighbours differ)
+    {
+      std::vector<int> fl; for (int i = 0; i < p.nf; i++) if (p.f[i].kind == lg::K_BOOL && p.f[i].inSetter) fl.push_back(i);
+      if (fl.size() >= 2) for (int pol = 0; pol < 2; pol++) for (int one : fl) {
+        std::vector<Cell> t = base;
+        for (int i : fl) { Cell x; x.v.i = (i == one) ? 1 - pol : pol; x.code = x.v.i; x.cls = "flag"; t[i] = x; }
+        runSet(p, t);
+      }
+    }
+    for (int k = 0; k < PL->n; k++) {
+      const pub::F &f = PL->f[k];
       if (!f.param || f.resExp != 0 || f.resNum == 1) continue;
       for (int i = 0; i < p.nf; i++) {
         if (strcmp(p.f[i].name, f.param) || (p.f[i].kind != lg::K_UINT && p.f[i].kind != lg::K_SINT)) continue;
@@ -196,7 +233,7 @@ int main(int argc, char **argv) {
       for (int i = 0; i < p.nf; i++) t[i] = randomCell(p, p.f[i], r, r.chance(1, 6));
       runSet(p, t);
     }
-    C.count("published_layouts_exercised");
+    C.count("published_setters_exercised");
   }
   for (int k = 0; k < (C.thorough ? 300 : 40); k++) {
     std::string s = "pgnlist " + std::to_string(r.below(2));
